@@ -83,9 +83,59 @@ def to_answer(ver: int, flags: int, code: int, app: int, hbh: int, e2e: int) -> 
     return hx.check(inputs, obs, exp, "answer header: version/code/app/ids copied, P kept, R/E/T cleared")
 
 
+def generate_answer(with_session: bool, with_proxy: bool, via_app: bool, kind: int, hi: int, flags: int) -> bool:
+    """
+    pre: 0 <= kind <= 2 and 0 <= hi < 5 and 0 <= flags <= 255
+    post: _
+    """
+    hx.begin()
+    from harness import bench as B
+    from diameter.message.avp.grouped import ProxyInfo
+    k = hx.concretize_range(kind, 0, 3)
+    hbh = B.ID_POOL[hx.concretize_range(hi, 0, 5)]
+    inputs = (with_session, with_proxy, via_app, kind, hi, flags)
+    try:
+        b = B.Bench(n_peers=1)
+        n, app = b.node, b.apps[0]
+        c, s = b.make_ready(b.peers[0])
+        if k == 0:
+            req = B.ccr(B.PEER_HOSTS[0], hbh, 77)
+        elif k == 1:
+            req = B.dwr(B.PEER_HOSTS[0], hbh, 77)
+        else:
+            req = B.Message()
+            req.header.command_code = 999
+            req.header.hop_by_hop_identifier = hbh
+            req.header.end_to_end_identifier = 77
+        req.header.command_flags = flags
+        if k == 0:
+            req.session_id = "sess;1" if with_session else None
+            if with_proxy:
+                pi = ProxyInfo()
+                pi.proxy_host = b"proxy.realm"
+                pi.proxy_state = b"st"
+                req.proxy_info = [pi]
+        elif with_session:
+            req.session_id = "sess;1"           # plain attribute on a message without the typed field
+        before = req.header.command_flags
+        ans = app.generate_answer(req, result_code=2001) if via_app else n._generate_answer(c, req)
+        h = ans.header
+        sid = getattr(ans, "session_id", None)
+        pinfo = getattr(ans, "proxy_info", None)
+        obs = (ans.origin_host, ans.origin_realm, sid, bool(pinfo), h.hop_by_hop_identifier, h.end_to_end_identifier, h.command_code,
+               h.is_request, h.is_error, h.is_retransmit, req.header.command_flags == before)
+    except Exception as e:
+        return hx.fail(inputs, "raised %s: %s" % (type(e).__name__, str(e)[:80]))
+    exp_sid = "sess;1" if with_session else None
+    exp = (B.NODE_HOST.encode(), B.REALM.encode(), exp_sid, bool(with_proxy and k == 0), hbh, 77, req.header.command_code, False, False, False, True)
+    return hx.check(inputs, obs, exp, "generated answer: local Origin-Host/Realm, Session-Id and Proxy-Info copied, header mirrored, R/E/T cleared")
+
+
 def specs(tier, seed, carve):
     out = []
     for name in sorted(CLASSES):
         out.append(dict(id="to_answer/" + name.replace("diameter.message.", ""), fn="to_answer", params={"cls": name}, timeout=60,
                         bound="all header values (8-bit version/flags, 24-bit code, 32-bit ids) for class " + name))
+    out.append(dict(id="generate_answer", fn="generate_answer", params={}, timeout=600,
+                    bound="Node._generate_answer and Application.generate_answer on a typed application request, a base-protocol request and an untyped request; Session-Id / Proxy-Info presence symbolic; all 256 flag octets; ids from the pool"))
     return out
